@@ -209,7 +209,8 @@ def enumerate_sites(prog) -> List[NameSite]:
             elif isinstance(ent, ClassInfo) and ent.qname in RULE_CLASSES:
                 kind, cls = "rule", ent.qname
                 arg_exprs = list(call.args)
-            elif isinstance(call.func, ast.Name) and call.func.id in params and call.args and ent is None:
+            elif isinstance(call.func, ast.Name) and call.func.id in params and call.args and ent is None and \
+                    not _is_instance_param(prog, mod, fi, call.func.id):
                 # constructor handed in as a parameter: type_generating(prefix)
                 kind, cls = "ctor-param", call.func.id
                 arg_exprs = call.args[:1]
@@ -230,6 +231,21 @@ def enumerate_sites(prog) -> List[NameSite]:
                 bare = bare_plus_operands(ae, assigns, strnames)
                 sites.append(NameSite(fi, call, kind, cls, lits, ae, not bare, [ast.unparse(b) for b in bare]))
     return sites
+
+
+def _is_instance_param(prog, mod, fi, name):
+    """`self`, or a parameter annotated with a repository class: calling it is `__call__` on an instance (the
+    transition function of an automaton), not a constructor handed in as a value."""
+    args = fi.node.args.posonlyargs + fi.node.args.args + fi.node.args.kwonlyargs
+    if fi.cls is not None and fi.kind != "static" and args and args[0].arg == name and \
+            not any(isinstance(d, ast.Name) and d.id == "staticmethod" for d in fi.node.decorator_list):
+        return True
+    for a in args:
+        if a.arg == name and a.annotation is not None:
+            ent = prog.resolve_expr(mod, a.annotation)
+            if isinstance(ent, ClassInfo):
+                return True
+    return False
 
 
 def _mentions_param(expr, params):
@@ -446,6 +462,8 @@ def check(eng, rep, prop):
                 if isinstance(sub, ast.Constant) and isinstance(sub.value, str) and sub.value in key[1].split("|"):
                     node = sub
                     break
+        if node is None and any(src == key for src in _moved_sources(prog, sites, have)):
+            continue
         if node is None:
             if ent[1] == "finding":
                 # the reported construct is gone: nothing to report (a repaired tree), and nothing to hold vacuously
@@ -456,10 +474,23 @@ def check(eng, rep, prop):
             continue
         par = _stmt_of(fi.node, node)
         sites.append(NameSite(fi, par, "name-local", "str", [key[1]], node))
+    moved_from = {}
+    for s in sites:
+        if s.key() not in T and s.category == "":
+            src = _moved_entry(prog, s, have)
+            if src is not None:
+                moved_from[s.key()] = src
     for s in sites:
         key = s.key()
         fshort = key[0]
         ent = T.get(key)
+        moved = False
+        if ent is None and key in moved_from:
+            # the literal-bearing construction was moved to another function of the same class / module (extract
+            # method): judge it under the entry confirmed for its old place; what cannot be re-established there is
+            # `cannot follow`, not a violation
+            ent = T[moved_from[key]]
+            moved = True
         sprop = ent[0] if ent else None
         if s.category == "FRESH":
             sprop = {"pda.get_next_free": "C13", "FSTStateRemaining.add_state": "C16",
@@ -507,19 +538,19 @@ def check(eng, rep, prop):
             if ok:
                 rep.holds("R5", prop + ".R5", s.func.qname, "closed-world:" + role, reason, site=site)
             else:
-                rep.violation("R5", prop + ".R5", s.func.qname, "closed-world-broken:" + role, why, site=site)
+                (rep.error if moved else rep.violation)("R5", prop + ".R5", s.func.qname, "closed-world-broken:" + role, why, site=site)
         elif cat == "template":
             ok, why = template_ok(prog, s)
             if ok:
                 rep.holds("R5", prop + ".R5", s.func.qname, "template:" + s.sig, reason, site=site)
             else:
-                rep.violation("R5", prop + ".R5", s.func.qname, "template-escapes:" + s.sig, why, site=site)
+                (rep.error if moved else rep.violation)("R5", prop + ".R5", s.func.qname, "template-escapes:" + s.sig, why, site=site)
         elif cat == "counter-suffix":
             ok, why = counter_suffix_ok(prog, s)
             if ok:
                 rep.holds("R5", prop + ".R5", s.func.qname, "inj-counter:" + s.sig, reason, site=site)
             else:
-                rep.violation("R5", prop + ".R5", s.func.qname, "counter-not-unique:" + s.sig, why, site=site)
+                (rep.error if moved else rep.violation)("R5", prop + ".R5", s.func.qname, "counter-not-unique:" + s.sig, why, site=site)
         else:
             rep.holds("R5", prop + ".R5", s.func.qname, "%s:%s" % (cat, role), reason, site=site, nontrivial=False)
     # call sites of the freshness generators
@@ -568,6 +599,35 @@ def check(eng, rep, prop):
                 # replaced them are reported above as unproven names; nothing else to add
                 pass
     return n
+
+
+def _same_unit(prog, f_a, fshort_b):
+    """Function f_a and the function named fshort_b belong to the same class (or, for module functions, module)."""
+    fb = _find_function(prog, fshort_b)
+    if fb is None:
+        return False
+    if f_a.cls is not None and fb.cls is not None:
+        return f_a.cls.qname in fb.cls.mro or fb.cls.qname in f_a.cls.mro
+    return f_a.module == fb.module
+
+
+def _moved_entry(prog, s, have):
+    """Table key whose listed site vanished from its function while a site with the same literal now exists in another
+    function of the same class / module."""
+    for key in T:
+        if key[1] == s.sig and key not in have and _same_unit(prog, s.func, key[0]):
+            return key
+    return None
+
+
+def _moved_sources(prog, sites, have):
+    out = set()
+    for s in sites:
+        if s.key() not in T and s.category == "":
+            src = _moved_entry(prog, s, have)
+            if src is not None:
+                out.add(src)
+    return out
 
 
 def _find_function(prog, fshort):
